@@ -3,7 +3,8 @@ exec (so that the metaclass, annotation handling and frame inspection run as for
 emission as Gallina `classdef` terms, reification of instances.
 
 Class AST: {"name", "base": None|name, "immutable": bool, "fields": [{"name","field","immutable","default"}],
-            "required": None|[names], "additional": None|bool, "ignore_none": bool, "hook": None|["le",a,b]|["set",a],
+            "required": None|[names], "spell_optional": bool (optional: write _optional instead of _required),
+            "additional": None|bool, "ignore_none": bool, "hook": None|["le",a,b]|["set",a],
             "undefined": bool (optional: _enable_undefined_value)}
 """
 from harness import coqemit as E
@@ -44,7 +45,11 @@ def class_src(c):
             src = src[:-1] + (", " if not src.endswith("(") else "") + ", ".join(extra) + ")"
         lines.append("    %s = %s" % (fd["name"], src))
     if c.get("required") is not None:
-        lines.append("    _required = %r" % list(c["required"]))
+        if c.get("spell_optional"):
+            # the other documented spelling of the same thing: the fields of THIS class that are not required
+            lines.append("    _optional = %r" % [fd["name"] for fd in c["fields"] if fd["name"] not in c["required"]])
+        else:
+            lines.append("    _required = %r" % list(c["required"]))
     if c.get("additional") is not None:
         lines.append("    _additional_properties = %r" % c["additional"])
     if c.get("ignore_none"):
